@@ -447,6 +447,39 @@ func checkC18(c *Ctx, p *Prog, r *Result) {
 		r.rule("C18.replace-both", "(*DB).ReplaceVoucher returns nil only after the new voucher was stored and the row of the old GUID was deleted")
 		r.floor("C18.replace-both", 1)
 		r.requireAtReturns(f, "C18.replace-both", rv, 0, []Atom{"new-voucher-stored", "old-voucher-removed"})
+		// the compensating delete after a failed removal targets the row that was just added
+		r.rule("C18.replace-undo-target", "in ReplaceVoucher exactly one delete names the old GUID (the guid parameter); every other delete on vouchers names the GUID of the replacement voucher (taken from the voucher parameter, not from the guid parameter)")
+		r.floor("C18.replace-undo-target", 2)
+		nOld := 0
+		for _, b := range rv.Blocks {
+			for _, in := range b.Instrs {
+				call, ok := in.(ssa.CallInstruction)
+				if !ok {
+					continue
+				}
+				if n := p.calleeOf(call.Common()).Name; n != "fdo/sqlite.remove" && n != "fdo/sqlite.DB.remove" {
+					continue
+				}
+				args := allArgs(call)
+				m := p.matcher(rv)
+				w, ok := mapLiteralKeys(args[3])
+				g, has := w["guid"]
+				if !ok || !has {
+					r.table(p, "C18.replace-undo-target", siteKey(p, call), p.instrPos(call), false, "where clause is not a map literal with a guid key: undecided")
+					continue
+				}
+				pv := m.Prov(g)
+				switch {
+				case pv.Has("param:2") && !pv.Has("param:3"):
+					nOld++
+					r.table(p, "C18.replace-undo-target", siteKey(p, call), p.instrPos(call), nOld == 1, "delete of the old GUID (guid parameter)")
+				case pv.Has("param:3") && !pv.Has("param:2"):
+					r.table(p, "C18.replace-undo-target", siteKey(p, call), p.instrPos(call), true, "compensating delete names the replacement voucher's GUID")
+				default:
+					r.table(p, "C18.replace-undo-target", siteKey(p, call), p.instrPos(call), false, "delete names neither exactly the old GUID nor exactly the replacement's GUID")
+				}
+			}
+		}
 	} else {
 		r.fail("anchor fdo/sqlite.DB.ReplaceVoucher not found")
 	}
